@@ -291,6 +291,35 @@ fn sweep_item(rep: &Report, local: &mut Local, item: &Item, part: usize, parts: 
             }
         }
     }
+    if part == 3 % parts {
+        // every value of the STREAMINFO sample-width field (5 bits) and channel field (3 bits), with every frame
+        // header switched to "sample size: see STREAMINFO" (tag 000) and all checksums recomputed: widths and
+        // channel counts the frame parser only learns from the metadata; only "no panic" is demanded
+        if let Ok(facts) = crate::strictflac::parse(&item.bytes) {
+            for width_field in 0..32u8 {
+                for ch_field in 0..8u8 {
+                    // the channel field is swept only with the original width and with the extreme widths
+                    let orig_ch = (item.bytes[20] >> 1) & 7;
+                    if ch_field != orig_ch && !(width_field == 0 || width_field >= 23) {
+                        continue;
+                    }
+                    let mut d = item.bytes.clone();
+                    d[20] = (d[20] & 0xF0) | (ch_field << 1) | (width_field >> 4);
+                    d[21] = (d[21] & 0x0F) | ((width_field & 0x0F) << 4);
+                    for fr in &facts.frames {
+                        let hdr_len = fr.header_bits / 8;
+                        d[fr.start + 3] &= 0xF1;
+                        d[fr.start + hdr_len - 1] = crate::strictflac::crc8(&d[fr.start..fr.start + hdr_len - 1]);
+                        let c16 = crate::strictflac::crc16(&d[fr.start..fr.end - 2]);
+                        d[fr.end - 2] = (c16 >> 8) as u8;
+                        d[fr.end - 1] = c16 as u8;
+                    }
+                    let r = judge(item, &d, false);
+                    report(rep, local, item, "streaminfo_width_and_channels", json!({"width_field": width_field, "channel_field": ch_field, "bytes": d}), r, width_field as u64);
+                }
+            }
+        }
+    }
     if part == 1 % parts {
         // every value of two consecutive bytes at four cut points
         for &c in [4usize, fs + 2, fs + 4, fs + 9].iter().filter(|&&c| c + 1 < n) {
